@@ -10,7 +10,7 @@ it observed. Four kinds of action, which are exactly the kinds of access the lib
   read c          plain read of document / router / registry state
   write c v       PLAIN write, no synchronisation                                (must not occur)
   syncStore c v / syncRead c   synchronised unconditional store / read-back of a cache cell (never a data race,
-                  but NOT clean: the value read back depends on who stored last — `getTypeInfo`, finding F-C15-2)
+                  but NOT clean: the value read back depends on who stored last — the shape `getTypeInfo` had before commit 9118e72, F-C15-2)
   cacheFill c v   fill of a cache cell through sync.Map / under a mutex / sync.Once
                   (`compiledPatterns.CompareAndSwap`, `typeInfos[t] = …` under `typeInfosMutex`)
   lazyInit c v    `if X == nil { X = v }; use X` — a plain read of X, and a PLAIN write when X is nil
